@@ -201,8 +201,9 @@ def run(ctx, prog):
     ctx.check(callers <= {'BaseAttack._batch_loop_compute', 'BaseAttack._final_compute'}, 'C08-D1', f'{cc.key}::callers',
               f'_compute_convergence_traces is also called from {sorted(callers - {"BaseAttack._batch_loop_compute", "BaseAttack._final_compute"})}', f'called only from {sorted(callers)}', cc.where())
     # what it appends
+    ldefs0_ = astutil.local_defs(cc.node)
     apps = [c for c in ast.walk(cc.node) if isinstance(c, ast.Call) and norm(c.func).split('.')[-1] in ('append', 'concatenate', 'hstack', 'dstack')
-            and 'convergence_traces' in norm(c) and 'scores' in norm(c)]
+            and 'convergence_traces' in norm(astutil.expand_locals(c, ldefs0_)) and 'scores' in norm(astutil.expand_locals(c, ldefs0_))]
     st = [s for s in ast.walk(cc.node) if isinstance(s, ast.Assign) and s.value in apps]
     NEWLAST = ('self.scores[...,None]', 'self.scores[...,_np.newaxis]', 'self.scores[...,np.newaxis]', '_np.expand_dims(self.scores,-1)', '_np.expand_dims(self.scores,axis=-1)')
     if len(apps) == 1 and len(st) == 1 and self_attr(st[0].targets[0]) == 'convergence_traces':
